@@ -54,7 +54,13 @@ EnumITypes  == {TEnumI(vs, u) : vs \in {{EV(N(1), Some(Dn))}, {EV(N(-1), Some(D0
 EnumSTypes  == {TEnumS(vs, ty) : vs \in {{EV(S("a"), Some(Dn))}, {EV(S("a"), Some(D0)), EV(S("b"), Some(Dall))},
                                           {EV(S("a"), None), EV(S("b"), Some(Dn))}},
                                   ty \in {FALSE, TRUE}}
+\* numbers measured in the SDK's package-level unit sets (by identity)
+PkgUnitTypes == {TInt(None, None, Some(PkgUnits(x))) : x \in PkgUnitNames}
+                \cup {TInt(Some(0), Some(5), Some(PkgUnits("nanos"))), TInt(Some(1), None, Some(PkgUnits("bytes")))}
+                \cup {TFloat(None, None, Some(PkgUnits(x))) : x \in {"nanos", "seconds", "pct"}}
+                \cup {TEnumI({EV(N(1), Some(Dn)), EV(N(60), Some(D0))}, Some(PkgUnits("seconds")))}
 Scalars == IntTypes \cup FloatTypes \cup StringTypes \cup {TBool, TPattern, TAny} \cup EnumITypes \cup EnumSTypes
+           \cup PkgUnitTypes
 
 RefB == TRef("B", "", None)
 Bounds == {<<None, None>>, <<Some(0), Some(2)>>, <<Some(1), None>>}
@@ -129,6 +135,7 @@ NameScopes == {NameScope(nm) : nm \in {x \in PropNames : NameOK(x)}}
 
 QuickProps == {t \in PropTypes :
                   \/ t.kind \in {"bool", "pattern", "any", "object", "scope", "ref", "oneof"}
+                  \/ t \in PkgUnitTypes
                   \/ t.kind \in {"int", "float"} /\ (t.units.some <=> t.max.some)
                   \/ t.kind = "string" /\ (t.pattern.some <=> t.max.some)
                   \/ t.kind \in {"enum_int"} /\ ~t.units.some
@@ -193,7 +200,7 @@ ObjMinimal(o, nn) ==
 Minimal(t, nn) ==
     CASE t.mt = "list"  -> L([i \in DOMAIN nn.v |-> Minimal(t.mv, nn.v[i])])
       [] t.mt = "map"   -> M({E(e.key, Minimal(t.mv, e.val)) : e \in nn.v})
-      [] t.mt = "obj"   -> ObjMinimal(t.mn, nn)
+      [] t.mt = "obj"   -> (IF nn.k = "pkgunits" THEN nn ELSE ObjMinimal(t.mn, nn))
       [] t.mt = "oneof" -> LET tid == Get(nn, "type_id").v
                            IN M({E(S("type_id"), S(tid))} \cup ObjMinimal(Members(t.mn)[tid], Without(nn, "type_id")).v)
       [] OTHER -> nn
@@ -276,9 +283,19 @@ BaseSmall == TScope("A", {KO("A", TObject("A", {P("p", TRef("A", "", None)), [P(
 BaseTiny  == TScope("A", {KO("A", TObject("A", {P("p", TStr0)}, FALSE, "map"))})
 BaseFloat == Scope1(P("p", TFloat(Some(-3), Some(9), None)), BFor(TInt0), "map", FALSE)
 \* (the step handles and emits a signal with the same ID; each side has its own data scope and reference)
-BaseSmallB  == TScope("B", {KO("B", TObject("B", {P("r", TRef("B", "", None)), P("n", TInt0)}, FALSE, "map"))})
-BaseSchema  == TSchema({KV("s1", Step("s1", BaseSmall, {KV("ok", Out(BaseOne, Some(Dn), FALSE))},
-                                      {KV("h", Sig("h", BaseSmall, None))}, {KV("h", Sig("h", BaseSmallB, None))}, None))})
+\* Every data schema of the step - input, output, handled and emitted signal - carries presence rules
+\* (required_if, required_if_not, conflicts): the names in those lists are free strings, and repointing one
+\* of them yields a rule that names no property of its object.
+BaseSmallB  == TScope("B", {KO("B", TObject("B", {P("r", TRef("B", "", None)),
+                                                  [P("n", TInt0) EXCEPT !.conflicts = <<"r">>, !.display = Some(Dn)]}, FALSE, "map"))})
+BaseSmallR  == TScope("A", {KO("A", TObject("A", {[P("p", TRef("A", "", None)) EXCEPT !.required_if_not = <<"q">>],
+                                                  [P("q", TBool) EXCEPT !.default = Some("true"), !.required_if = <<"p">>]},
+                                            FALSE, "map"))})
+BaseOneR    == LET t == TOneOf("string", "t", TRUE, {Mem(S("x"), RefB)})
+               IN TScope("A", {KO("A", TObject("A", {P("p", t), [P("q", TInt0) EXCEPT !.conflicts = <<"p">>]}, FALSE, "map")),
+                               KO("B", BFor(t))})
+BaseSchema  == TSchema({KV("s1", Step("s1", BaseSmallR, {KV("ok", Out(BaseOneR, Some(Dn), FALSE))},
+                                      {KV("h", Sig("h", BaseSmallR, None))}, {KV("h", Sig("h", BaseSmallB, None))}, None))})
 BaseSchemaS == TSchema({KV("s1", Step("s1", BaseTiny, {KV("ok", Out(BaseSmall, None, TRUE))}, {}, {}, Some(Dn)))})
 \* units (with multipliers) on an integer, a float and an integer enum: the multiplier keys get mutated
 BaseUnits == TScope("A", {KO("A", TObject("A", {P("i", TInt(Some(0), Some(5), Some(U1))),
@@ -392,7 +409,7 @@ BasesValid == (IsCase /\ lab = <<>> /\ src # NoSrc) => Classify(tgt, d).stage = 
 (* ------------------------------------------------------------------------ *)
 (* export: compact JSON of a tree                                           *)
 (*   string "..", integer 5 ({"u":5} once a transport made it unsigned),    *)
-(*   boolean, float {"f":halves}, nil {"z":true},                           *)
+(*   boolean, float {"f":halves}, nil {"z":true}, package units {"pu":name}, *)
 (*   list {"l":[..]}, map {"m":{"sKEY":..,"i5":..}} ({"m":[]} when empty)   *)
 (* ------------------------------------------------------------------------ *)
 JKey(a) == IF a.k = "str" THEN "s" \o a.v ELSE "i" \o ToString(a.v)
@@ -401,6 +418,7 @@ J(x) == CASE x.k = "str"  -> x.v
           [] x.k = "num"  -> (IF x.rep = "f" THEN [f |-> x.v] ELSE IF x.rep = "u" THEN [u |-> x.v] ELSE x.v)
           [] x.k = "bool" -> x.v
           [] x.k = "nil"  -> [z |-> TRUE]
+          [] x.k = "pkgunits" -> [pu |-> x.v]
           [] x.k = "list" -> [l |-> [i \in DOMAIN x.v |-> J(x.v[i])]]
           [] x.k = "map"  -> [m |-> [kk \in {JKey(e.key) : e \in x.v} |-> J((CHOOSE e \in x.v : JKey(e.key) = kk).val)]]
 
@@ -422,7 +440,7 @@ Export ==
       [] pp # NoPick -> Emit([mode |-> "pick"])
       [] st = "desc" /\ Mode = "c09" ->
             Emit([mode |-> "c09", target |-> tgt, ast |-> src, desc |-> J(d), minimal |-> J(MinimalTop(tgt, d)),
-                  usable |-> Usable(src)])
+                  usable |-> Usable(src), utoks |-> UnitTokens])
       [] st = "desc" /\ Mode = "c10" ->
             LET c == Classify(tgt, d) IN
             Emit([mode |-> "c10", target |-> tgt, desc |-> J(d), labels |-> lab, grammar_free |-> (src = NoSrc),
